@@ -127,6 +127,14 @@ func propEviction(c *Case) {
 		c.Class("TimeToLive=Unlimited")
 	}
 
+	// entries expired longer than DeleteExpiredAfter are deleted by the cycle BEFORE the limits are
+	// looked at: they neither count for a breach nor for the amount
+	dea := farFuture
+	if !realJanitor && c.Weighted("DeleteExpiredAfter", 2, 1) == 1 {
+		dea = 25 * time.Minute
+		c.Class("long-expired-entries-at-cycle")
+	}
+
 	c.Bubble(func() {
 		tr := newCountTracker()
 		interval := time.Hour
@@ -142,7 +150,7 @@ func propEviction(c *Case) {
 		cfg := cache.Config{
 			Name: "ev", ItemsCountReportInterval: reportInterval,
 			TimeToLive: cfgTTL, ExpirationJitter: -1,
-			DeleteExpiredJobInterval: jobInterval, DeleteExpiredAfter: farFuture,
+			DeleteExpiredJobInterval: jobInterval, DeleteExpiredAfter: dea,
 			CountSoftLimit: limit, HeapInUseSoftLimit: heapLimit, SysMemSoftLimit: sysLimit, EvictFraction: frac, EvictionStrategy: strategy,
 		}
 		if withStats {
@@ -305,6 +313,7 @@ func propEviction(c *Case) {
 					if strategy == cache.EvictMostExpired {
 						ttl = 50 * time.Minute
 						e.metric = time.Now().Add(ttl).UnixNano()
+						e.expiry = e.metric
 					}
 
 					_ = be.Write(ttlCtx(ttl), []byte(k), "v"+k)
@@ -330,6 +339,20 @@ func propEviction(c *Case) {
 
 				time.Sleep(1)
 				be.Cleanup()
+
+				longExpired := 0
+
+				for k, e := range pop {
+					if e.expiry < tick.UnixNano()-int64(dea) {
+						delete(pop, k)
+						longExpired++
+					}
+				}
+
+				if longExpired > 0 {
+					c.Tracef("cycle %d: %d entries expired longer than %v ago are deleted first", cycle, longExpired, dea)
+					c.Class("cycle-deletes-long-expired-first")
+				}
 			}
 
 			// Survivors.
